@@ -33,7 +33,7 @@ ASSUMPTIONS = [
     "header lines contain ASCII only (the parser opens files in the locale's encoding)",
 ]
 REQUIRED = {"all": ["layouts", "clean_parsed", "corruptions_rejected", "corruptions_still_valid", "second_header_cases",
-                    "star_cases", "same_size_overwrites", "object_battery_compared", "crlf_layouts", "numbered_layouts", "second_file_object_checked", "pathlib_paths", "relative_paths"]}
+                    "star_cases", "same_size_overwrites", "object_battery_compared", "crlf_layouts", "numbered_layouts", "second_file_object_checked", "pathlib_paths", "relative_paths", "raw_byte_corruptions", "reused_parser_and_frontend_parses"]}
 NLAYOUT = {"quick": 600, "thorough": 6000}
 NCORR = {"quick": 30, "thorough": 60}
 PANEL = list("*>#-_.,;:!?@$%&/\\|()[]{}<=+~^'\"`") + list("BJOUXZbjouxz") + list("aceg") + ["\t", "\x0c", "\x00", "\x7f", "\n",
@@ -81,10 +81,10 @@ def model(text):
                 pass
             elif ch == "*":
                 out.append(ch)
-            elif ch.isspace() or (ch.upper() in M.AA and len(ch.upper()) == 1):
-                unspec = True
+            elif ch.upper() in M.AA and len(ch.upper()) == 1:
+                unspec = True                       # lower-case residue letter: statement silent
             else:
-                error = True
+                error = True                        # includes tabs, form feeds, ... INSIDE a sequence line
     s = "".join(out)
     k = s.count("*")
     if k > 1 or (k == 1 and s[-1] != "*"):
@@ -216,7 +216,11 @@ def parse_real(S, path, rng, rep):
 
 def write(path, text):
     with open(path, "wb") as fh:
-        fh.write(text.encode("utf-8"))
+        fh.write(text if isinstance(text, bytes) else text.encode("utf-8"))
+
+
+RAW_BYTES = [b"\xe9", b"\xff", b"\xa0", b"\xc3", b"\x86", b"\xe2\x82", b"\xfe\xff"]
+_long_lived = {}
 
 
 def judge(case, rep, S):
@@ -232,6 +236,24 @@ def judge(case, rep, S):
     variants = [("clean", None, None, text)] + corruptions(rng, text, NCORR[_dir.get("tier", "quick")])
     prev_size = None
     prev_ok = False
+    # corruptions that are not text at all: stray bytes (not valid UTF-8) inside a sequence line must be rejected too
+    enc = text.encode("utf-8")
+    body_positions = [k for k in range(len(enc)) if 65 <= enc[k] <= 90]
+    for _ in range(3):
+        if body_positions:
+            k = rng.choice(body_positions)
+            raw = rng.choice(RAW_BYTES)
+            write(path, enc[:k] + raw + enc[k + (1 if rng.random() < 0.5 else 0):])
+            if True:
+                # position k is a capital letter; it lies in a sequence line unless it is inside the header line
+                line_start = max(enc.rfind(b"\n", 0, k), enc.rfind(b"\r", 0, k)) + 1
+                in_header = enc[line_start:line_start + 1] == b">"
+                got_raw = parse_real(S, path, rng, rep)
+                if not in_header:
+                    rep.cnt("raw_byte_corruptions")
+                    if got_raw != ERR:
+                        rep.viol("parse_outcome", "bytes %r inside a sequence line of %r: parser returned %r instead of rejecting the file" % (
+                            raw, info, got_raw[:80]), sig={"want_error": True, "got_error": False, "char": repr(raw), "kind": "raw_bytes"})
     for kind, i, ch, content in variants:
         want = model(content)
         size = len(content.encode("utf-8"))
@@ -239,6 +261,23 @@ def judge(case, rep, S):
         if prev_ok and size == prev_size:
             rep.cnt("same_size_overwrites")
         got = parse_real(S, path, rng, rep)
+        if rng.random() < 0.2:
+            # a long-lived parser object and the front-end constructor see the same file the same way,
+            # whatever they were given before (also files they rejected)
+            lp = _long_lived.setdefault("p", S["parsermod"].SequenceFileParser())
+            try:
+                got2 = lp.parseSeqFile(path)
+            except Exception:
+                got2 = ERR
+            try:
+                got3 = S["SP"](sequenceFile=path).get_sequence()
+            except Exception:
+                got3 = ERR
+            rep.cnt("reused_parser_and_frontend_parses")
+            if want != UNSPEC and (got2 != got or (got3 != got and not (got == "" or got3 == ERR and got == ""))):
+                rep.viol("parse_outcome", "a fresh parser gives %s, a re-used parser %s and SequenceParameters(sequenceFile=) %s for the same file %r" % (
+                    "an error" if got == ERR else repr(got[:60]), "an error" if got2 == ERR else repr(got2[:60]),
+                    "an error" if got3 == ERR else repr(got3[:60]), content[:200]), sig={"kind": "reused_parser"})
         prev_size, prev_ok = size, (got != ERR)
         if want == UNSPEC:
             rep.cnt("unspecified_not_judged")
